@@ -83,6 +83,17 @@ def run_module_configs(rep, tier):
             clean(base, [p])
             run([WIRE, "gen", p.path("app")], cwd=base, env=dict(GOENV), timeout=120)
             compare("import-path pattern", collect(base, [p]), only={p.name})
+            # started in a directory that does not contain the package: a sibling program's directory, the wtrace package
+            sib = base + "/" + next(q.name for q in ok if q.name != p.name) if len(ok) > 1 else base + "/wtrace"
+            clean(base, [p])
+            run([WIRE, "gen", p.path("app")], cwd=sib, env=dict(GOENV), timeout=120)
+            compare("cwd = sibling directory, import-path pattern", collect(base, [p]), only={p.name})
+            clean(base, [p])
+            run([WIRE, "gen", "../%s/%s" % (p.name, p.pkgmap["app"]["dir"])], cwd=sib, env=dict(GOENV), timeout=120)
+            compare("cwd = sibling directory, relative pattern ../prog/app", collect(base, [p]), only={p.name})
+            clean(base, [p])
+            run([WIRE, "gen", p.path("app")], cwd=base + "/wtrace", env=dict(GOENV), timeout=120)
+            compare("cwd = unrelated package directory, import-path pattern", collect(base, [p]), only={p.name})
         # nothing run-specific in the output
         for p in ok:
             txt = ref[p.name]
